@@ -118,6 +118,24 @@ def run(ctx):
         if seed is not None or not sampling:
             if again != base:
                 ctx.fail(case, 'repeating the call gives %r, first call gave %r' % (again, base))
+        # ---- the caller's own Size object, used for this call and then again for the same call (as a program that keeps
+        #      one settings object does): same expressions both times, and the same as with a fresh equal object
+        if sampling and seed is not None:
+            import tdda.rexpy.rexpy as rx
+            import contextlib, io
+            try:
+                sz = rx.Size(**size)
+                outs_ = []
+                for rep in (1, 2, 3):
+                    with contextlib.redirect_stdout(io.StringIO()):
+                        xs_ = rx.Extractor(list(arg), size=sz, seed=seed, **opts)
+                    outs_.append(rexes_of(xs_))
+                ctx.bump('size_object_reused')
+                if not (outs_[0] == outs_[1] == outs_[2] == base):
+                    ctx.fail(dict(case, reused_size_object=True), 'three calls sharing one Size object give %r, %r and %r; a call '
+                             'with a fresh equal Size gave %r' % (outs_[0], outs_[1], outs_[2], base))
+            except Exception as e:
+                ctx.fail(case, 'calls sharing one Size object raised %s: %s' % (type(e).__name__, str(e)[:200]))
         # ---- the documented two-step use: construct without extracting, let the program use the generator,
         #      then extract (twice): same expressions, and a seeded extract() leaves the generator as it found it
         if it % 3 == 0:
